@@ -1,4 +1,5 @@
 import XmppModel.Model.Ibb
+import XmppModel.Model.IbbReader
 /-!
 # C15 — an in-band bytestream is a reliable ordered byte pipe
 
@@ -181,6 +182,74 @@ theorem C15_drain_then_eof (s : RState) (n : Nat) :
 theorem C15_closed_refuses (cd : Codec) (s : RState) (p : Packet) :
     recv cd (close s) p = (close s, .itemNotFound) := by
   unfold recv close; simp
+
+/-! ### the reader's wake-up (LTS of `Model/IbbReader.lean`) -/
+section Reader
+open XmppModel.IbbReader
+
+/-- invariant of the repaired protocol: a reader that is about to wait, or waits, while data is
+buffered or the stream is closed always has a signal pending -/
+def ReaderInv (s : IbbReader.St) : Prop :=
+  (s.rpc = .checked ∨ s.rpc = .waiting) → (s.buf > 0 ∨ s.closed = true) → s.tok = true
+
+theorem C15_reader_inv_step {s a s'} (h : ReaderInv s) (hs : IbbReader.step true s a = some s') :
+    ReaderInv s' := by
+  unfold ReaderInv at *
+  cases a <;> simp only [IbbReader.step] at hs
+  case packet n => simp at hs; subst hs; simp
+  case close => simp at hs; subst hs; simp
+  all_goals
+    (split at hs <;> (try split at hs) <;> (try simp at hs) <;> (try subst hs) <;>
+      (try (simp only [test] at *; (repeat' split) <;> simp_all <;> omega)))
+
+theorem C15_reader_inv {s} (hr : IbbReader.Reach true s) : ReaderInv s := by
+  induction hr with
+  | init => intro h; simp [IbbReader.init] at h
+  | step _ hs ih => exact C15_reader_inv_step ih hs
+
+/-- no lost wake-up, every schedule: whenever the reader is blocked in its wait and data has
+arrived (or the stream was closed), the wake-up step is enabled, and it ends the call with the
+data (or end-of-file) -/
+theorem C15_reader_no_lost_wakeup {s} (hr : IbbReader.Reach true s) (hw : s.rpc = .waiting)
+    (hd : s.buf > 0 ∨ s.closed = true) :
+    ∃ s', IbbReader.step true s .wake = some s' ∧ s'.rpc = .idle ∧
+      (s.buf > 0 → s'.delivered = s.delivered + s.buf ∧ s'.buf = 0) ∧
+      (s.buf = 0 → s'.eof = true) := by
+  have ht := C15_reader_inv hr (Or.inr hw) hd
+  simp only [IbbReader.step, hw, ht, if_true]
+  refine ⟨_, rfl, ?_⟩
+  simp only [test]
+  rcases hd with hb | hc
+  · simp [hb]; omega
+  · by_cases hb : s.buf > 0
+    · simp [hb]; omega
+    · have : s.buf = 0 := by omega
+      simp [this, hc]
+
+/-- a Read never returns early: it only ends with data or, on a closed stream, with end-of-file -/
+theorem C15_reader_returns_only_with_data_or_eof {s a s'} (hs : IbbReader.step true s a = some s')
+    (hbusy : s.rpc ≠ .idle) (hret : s'.rpc = .idle) :
+    s'.delivered > s.delivered ∨ (s'.eof = true ∧ s.closed = true) := by
+  cases a <;> simp only [IbbReader.step] at hs
+  case packet n => simp at hs; subst hs; exact absurd hret hbusy
+  case close => simp at hs; subst hs; exact absurd hret hbusy
+  all_goals
+    ((try split at hs) <;> (try split at hs) <;> (try simp at hs) <;> (try subst hs) <;>
+      (try (simp only [test] at *; (repeat' split at hret) <;> simp_all <;> omega)))
+
+/-- negation witness for the pinned snapshot (unbuffered signal): the packet is handled between
+the reader's check and its wait, the signal is dropped, the reader waits with data buffered and
+nothing but a further packet or the close can wake it -/
+theorem C15_reader_lost_wakeup_in_snapshot :
+    ∃ s, IbbReader.Reach false s ∧ s.rpc = .waiting ∧ s.buf > 0 ∧ IbbReader.step false s .wake = none := by
+  refine ⟨⟨3, false, false, .waiting, 0, false⟩, ?_, rfl, by decide, by decide⟩
+  have h1 : IbbReader.Reach false ⟨0, false, false, .checked, 0, false⟩ :=
+    .step .init (a := .readStart) (by decide)
+  have h2 : IbbReader.Reach false ⟨3, false, false, .checked, 0, false⟩ :=
+    .step h1 (a := .packet 3) (by decide)
+  exact .step h2 (a := .enterWait) (by decide)
+
+end Reader
 
 /-! ### the executable codec instance (validated by correspondence, spot-checked here) -/
 example : std.dec (std.enc [1, 2, 3, 4, 5]) = some [1, 2, 3, 4, 5] := by decide
